@@ -477,6 +477,7 @@ This process is a two-phase process, during the midst of it the peer group's lea
 
 #![deny(clippy::all)]
 #![deny(missing_docs)]
+#![cfg_attr(feature = "tikv_raft_rs_verif", allow(missing_docs))]
 #![recursion_limit = "128"]
 // TODO: remove this when we update the mininum rust compatible version.
 #![allow(unused_imports)]
@@ -516,6 +517,9 @@ mod status;
 pub mod storage;
 mod tracker;
 pub mod util;
+#[cfg(feature = "tikv_raft_rs_verif")]
+#[allow(missing_docs)]
+pub mod verif_export;
 
 pub use crate::raft::{
     vote_resp_msg_type, Raft, SoftState, StateRole, CAMPAIGN_ELECTION, CAMPAIGN_PRE_ELECTION,
